@@ -5,22 +5,22 @@ import json
 notes={
 'C01':'as planned; pair lemmas + functional contracts of the whole wire path; the special-case printer\'s text for os/net wrapper types (it must equal the head of the type\'s own `Error()`, which is what `extractPrefix` ships); API forwarders (`#forwards`); ownership obligations for the encoding path (no drift on re-encoding). 1 known finding (net.OpError `src -> addr`)',
 'C02':'as planned + the message-fidelity contracts (extractPrefix, opaque `Error()`, DecodeError/decodeLeaf/decodeWrapper): the mark is message + type chain; oserror predicates ask about the right sentinel',
-'C03':'sink sweep over all `redact.Safe` sites, conversions to redactable types as sinks (`rsafe`), SafeDetails/GetSafeDetails/Fill/GetAllSafeDetails safety, registered-encoder sweep, wire invariant `safeEnc`, special-case printer, **the rendering path** (rsEntries invariant, printEntry/formatEntries/formatSingleLineOutput keep "the final buffer keeps PII inside markers", finishDisplay requires it, formatErrorInternal proves it on every path), **constructor sweep** (every function that allocates a type carrying a C03 invariant is verified under C03), **format-string discipline** (`#formatarg.N`). Not covered: Sentry fields, redact internals (T7)',
+'C03':'sink sweep over all `redact.Safe` sites, conversions to redactable types as sinks (`rsafe`), SafeDetails/GetSafeDetails/Fill/GetAllSafeDetails safety, registered-encoder sweep, wire invariant `safeEnc`, special-case printer, **the rendering path** (rsEntries invariant, printEntry/formatEntries/formatSingleLineOutput keep "the final buffer keeps PII inside markers", finishDisplay requires it, formatErrorInternal proves it on every path), **constructor sweep** (every function that allocates a type carrying a C03 invariant is verified under C03), **format-string discipline** (`#formatarg.N`), printer delegation, the Sentry report's verbose text (`Redact()` receiver obligation). Not covered: the other Sentry fields, redact internals (T7)',
 'C04':'as planned + opaque carriers\' `SafeFormatError` (which error the engine continues with), ownership obligations for the encoding path; barrier message at unknowing receivers is the recorded finding',
 'C05':'as planned (sweep over registered decoders and all error-type methods)',
-'C06':'escaping discipline as content contracts over `wfR` (see §10.2), conversion sinks, structural `Format` delegation (shared with C09). Byte-level balance lives in redact (T7) and in one `assumes` clause of collectEntry; congruence is decided only as far as "every Format goes through the one engine"',
+'C06':'escaping discipline as content contracts over `wfR` (see §10.2), conversion sinks, structural `Format` delegation (shared with C09), printer delegation, mode independence (`#modeindep`). Byte-level balance lives in redact (T7) and in one `assumes` clause of collectEntry; congruence is decided only as far as "every Format goes through the one engine"',
 'C07':'as planned + NewWithDepthf: only the `%w` operand becomes the cause',
 'C08':'as planned + Join keeps its arguments, type-mark contracts (getTypeDetails / GetTypeMark / GetTypeKey)',
-'C09':'verb dispatch / refusal text, `%#v` output, finishDisplay\'s width-precision-verb rule (ghost output `$out`), formatRecursive collects exactly `treeSize(err)` entries, `Format` methods delegate to `FormatError` (structural), every layer\'s SafeFormatError/FormatError returns the right "next" error and hands its own detail to the printer (`$pargs`), special-case printer text (`$ptext`), format-string discipline, `state.detail`. Not decided: the `%+v` layout. 1 known finding (net.OpError)',
+'C09':'verb dispatch / refusal text, `%#v` output, finishDisplay\'s width-precision-verb rule (ghost output `$out`), formatRecursive collects exactly `treeSize(err)` entries, `Format` methods delegate to `FormatError` (structural), every layer\'s SafeFormatError/FormatError returns the right "next" error and hands its own detail to the printer (`$pargs`), special-case printer text (`$ptext`), format-string discipline, printer delegation, `state.detail`, elision of overridden causes in the default and `fmt.Formatter` branches. Not decided: the `%+v` layout. 1 known finding (net.OpError)',
 'C10':'as planned + nil-in/nil-out sweep over every exported `func(error…) error`, Is/IsAny/As contracts, API forwarders. 1 known finding (net.OpError)',
 'C11':'as planned + getTypeDetails/GetSafeDetails, GetOneLineSource, oserror predicates, grpc status decoders',
 'C12':'functional ("equals") retention contracts: constructors, every `SafeDetails()`, `Fill`, `GetAllSafeDetails == allSD(err)`, barrier/secondary `== foldSD(hidden)`, pair lemmas, WrapWithDepthf attaches every error operand as a secondary error, constructor sweep for C12 invariants. Not covered: presence inside the Sentry report and inside redact\'s renderings',
 'C13':'as planned + joinError.SafeFormatError','C14':'as planned (stdlib `errors.Is/As/Unwrap` bodies are under contract too)',
-'C15':'nil ⇒ nothing; stacks/details aligned per visited node (callback invariant); #exceptions, position, stack object and module of every exception incl. the reversal; synthetic exception; message prefix; printed-stack entry parser; type names of every layer (getTypeDetails / GetSafeDetails); GetOneLineSource innermost-first. Not decided: visit order = pre-order, composition lines',
+'C15':'nil ⇒ nothing; stacks/details aligned per visited node (callback invariant); #exceptions, position, stack object and module of every exception incl. the reversal; synthetic exception; message prefix; printed-stack entry parser; type names of every layer (getTypeDetails / GetSafeDetails); GetOneLineSource innermost-first, GetReportableStackTrace for any StackTrace provider. Not decided: visit order = pre-order, composition lines',
 'C16':'as planned (ghost frame levels) + GetOneLineSource innermost-first over Cause()/Unwrap()',
 'C17':'as planned + API forwarder of RegisterTypeMigration, built-in migrations in the registry table',
 'C18':'read-only frame sweep over 435 functions: ownership obligations from symbolic execution, structural def-chain rule for the functions the executor abandons, element writes through non-owned slices, append onto a truncated view of non-owned storage, no package variable handed to external writers (`#gframe.N`)',
-'C19':'as planned + FlattenHints/FlattenDetails (`joinDD`), GetContextTags (outermost first, normalised buffers), GetTelemetryKeys (set union, no duplicates), constructors incl. the formatted text of WithHintf/WithDetailf, standard hints (assertion, unimplemented, issue link) as exact texts',
+'C19':'as planned + FlattenHints/FlattenDetails (`joinDD`), WithContextTags / GetContextTags (one layer per context with a tag buffer, outermost first, normalised buffers), GetTelemetryKeys (set union, no duplicates), constructors incl. the formatted text of WithHintf/WithDetailf, standard hints (assertion, unimplemented, issue link) as exact texts',
 'C20':'as planned + Encode/Decode contracts (what the client does with the unmarshalled message), GetGrpcCode, grpc / gogo status decoders',
 }
 status={'C06':'claimed (partial)','C09':'claimed (partial)','C15':'claimed (partial)','C18':'claimed (sufficient condition)'}
